@@ -208,6 +208,20 @@ def window_plumbing(prog, rep):
         rep.check(len(rets) == 1 and rets[0].value is c, "WINDOW", fi.short, "result", "returns the read's result as is", "the read's result is post-processed before it is returned", fi.loc())
 
 
+def stateless(prog, rep):
+    """a query over one window must not see what a query over another window left behind"""
+    rep.rule("STATELESS", "nothing reachable from query() writes a module-level container (effect analysis, E2): every run starts from create_namespace() and leaves nothing behind, so the answer for a window depends only on the store and the program text (the function registry is filled at import time, not by queries)")
+    fi = prog.func("query", "aw_query.query2")
+    an = Analysis(prog, fi)
+    an.run()
+    ws = [w for w in an.writes if w.node[0] == "S"]
+    if ws:
+        w = ws[0]
+        rep.violation("STATELESS", fi.short, f"write to {'.'.join(str(x) for x in w.node[1])}", f"`{w.how}` at {w.loc} (in {w.fn}) stores into module-level state during a query: a later run of the same query over another window reuses what the earlier run left there (parsed statements carry the variable values and window of the run that parsed them), so its answer is no longer the direct read over its own window", w.loc, found=[repr(x) for x in ws[:4]])
+    else:
+        rep.ok("STATELESS", fi.short, "module-level state", f"{len(an.writes)} writes analysed, none below a module-level container", fi.loc())
+
+
 def check(prog, rep):
     rep.level = "proof"
     rep.explanation = (
@@ -222,6 +236,7 @@ def check(prog, rep):
     no_write_reachable(prog, rep)
     own_rules(prog, rep, methods=["get_events", "get_eventcount", "get_metadata", "buckets", "get_event"])
     window_plumbing(prog, rep)
+    stateless(prog, rep)
 
 
 VARIANTS = [
@@ -235,6 +250,7 @@ VARIANTS = [
     ("B read limited", Q, "return datastore[bucketname].get(starttime=starttime, endtime=endtime)", "return datastore[bucketname].get(1000, starttime=starttime, endtime=endtime)", "WINDOW"),
     ("B namespace window from name", Q2, 'namespace["ENDTIME"] = endtime.isoformat()', 'namespace["ENDTIME"] = starttime.isoformat()', "WINDOW"),
     ("B memory read hands out stored events", "aw_datastore/storages/memory.py", "        return copy.deepcopy(events)", "        return events", "OWN-OUT"),
+    {"name": "B parsed statements memoised per query name (module-level dict)", "edits": [(Q2, "def query(\n", "_memo: dict = {}\n\n\ndef query(\n"), (Q2, "            var, val = parse(statement, namespace)\n", "            if (name, statement) not in _memo:\n                _memo[(name, statement)] = parse(statement, namespace)\n            var, val = _memo[(name, statement)]\n")], "expect": "STATELESS"},
     ("OK new pure wrapper", Q, '@q2_function()\n@q2_typecheck\ndef q2_nop():', '@q2_function(sum_durations)\n@q2_typecheck\ndef q2_total(events: list) -> timedelta:\n    return sum_durations(events)\n\n\n@q2_function()\n@q2_typecheck\ndef q2_nop():', "ok"),
     ("OK positional window", Q, "return datastore[bucketname].get(starttime=starttime, endtime=endtime)", "return datastore[bucketname].get(-1, starttime, endtime)", "ok"),
 ]
